@@ -21,14 +21,15 @@ JoinSet(S) == IF S = {} THEN "" ELSE LET x == CHOOSE y \in S : TRUE IN
               IF Cardinality(S) = 1 THEN x ELSE x \o "," \o JoinSet(S \ {x})
 
 VerdictJs(c) ==
-  LET w     == Normalize(c.win)
+  LET w     == IF Has(c.win, {CR}) THEN Normalize(c.win) ELSE c.win
       lx    == LexString(w)
+      verb  == lx.ok /\ lx.val = Utf16(c.val) /\ FollowedBy(w, lx.end, c.tail)      \* = Verbatim(w, c.val, c.tail)
       safe  == ScriptSafe(w)
       \* exactly what the named deviations describe: the HTML-escaped value between the quotes, then the template
       today == StartsWith(w, 1, Normalize(TodayLiteral(w[1], c.val)) \o c.tail)
   IN IF c.problem # "" THEN "tool:locate"
      ELSE IF lx.why = "window" THEN "tool:window"
-     ELSE IF Verbatim(w, c.val, c.tail) /\ safe THEN "ok"
+     ELSE IF verb /\ safe THEN "ok"
      ELSE IF ~safe THEN (IF EndsScript(w) THEN "violation:ends-script" ELSE "violation:script-escaped-state")
      ELSE IF Devs(c.val) # {} /\ today THEN "known:" \o JoinSet(Devs(c.val))
      ELSE IF ~lx.ok THEN "violation:literal-broken"
